@@ -220,6 +220,8 @@ def _replace_locals(tree, env):
             return _strip_addr(n["e"])
         elif k in ("field", "index") and n["e"].get("k") == "addr":
             n["e"] = _strip_addr(n["e"])
+        elif k in ("assign", "assignop") and isinstance(n.get("l"), dict) and n["l"].get("k") == "addr":
+            n["l"] = _strip_addr(n["l"])
         return n
     return R(tree)
 
